@@ -18,7 +18,8 @@ from mmv import util
 PROP = 'C07'
 LEVEL = 'exploration'
 RULE = ('Generated experiment frames in both cost scenarios (fixed: pre-period and control test-period costs exactly 0; '
-        'variable: costs >= 1e-3 with a clearly non-zero incremental cost, |z| >= 8), with / without cooldown, tails 1/2, '
+        'variable: all costs > 0 at scales 1e-6..1e3 with a clearly non-zero incremental cost, |z| >= 8; mixed: only the '
+        'treatment group spends before the test, or only the control group spends in the test - label judged only), with / without cooldown, tails 1/2, '
         'levels in (0,1), thresholds on both sides. Fixed: estimate / lower / upper vs closed-form response posterior / '
         'incremental cost, incremental_response_{lower,upper} = bounds x cost, probability, scenario label. Variable: two '
         'calls with the same random_state must agree; lower <= estimate <= upper; incremental figures vs closed form. Both: '
@@ -27,9 +28,9 @@ RULE = ('Generated experiment frames in both cost scenarios (fixed: pre-period a
 ASSUMPTIONS = ['tails=1 with level < 0.5 ordering failures are classified under the known-finding key one-sided-level-below-half',
                'variable-cost cases with |incremental cost / its posterior scale| < 8 are skipped (ratio of t variables too heavy-tailed)']
 EXHAUSTIVE = {'quick': False, 'thorough': False}
-MINIMA = {'quick': {'refits': 80, 'fixed_checked': 250, 'variable_checked': 200, 'equivariance_pairs': 400, 'determinism_pairs': 200,
+MINIMA = {'quick': {'mixed_cost_cases': 100, 'refits': 80, 'fixed_checked': 120, 'variable_checked': 200, 'equivariance_pairs': 400, 'determinism_pairs': 200,
                     'distinct_nontrivial': 400},
-          'thorough': {'refits': 1200, 'fixed_checked': 4000, 'variable_checked': 3000, 'equivariance_pairs': 6000, 'determinism_pairs': 3000,
+          'thorough': {'mixed_cost_cases': 1500, 'refits': 1200, 'fixed_checked': 2000, 'variable_checked': 3000, 'equivariance_pairs': 6000, 'determinism_pairs': 3000,
                        'distinct_nontrivial': 6000}}
 N = {'quick': 640, 'thorough': 9000}
 NSIMS = {'quick': 2000, 'thorough': 10000}
@@ -51,11 +52,14 @@ def tot(exp, col, periods):
 def run_case(spec):
   r, g = util.rngs(PROP, spec['seed'], spec['idx'])
   mod = bootstrap.mm('tbr_iroas')
-  scenario = 'fixed' if spec['idx'] % 2 == 0 else 'variable'
+  scenario = ['fixed', 'variable', 'fixed', 'variable', 'variable', 'treatment_pre_only', 'control_test_only',
+              'variable'][spec['idx'] % 8]
+  # total non-incremental cost anywhere between 1e-7 and 1e7: "zero" must mean zero, not "small"
+  cost_scale = 1.0 if scenario != 'variable' else r.choice([1.0, 1.0, 1e-6, 1e-4, 1e3])
   extras = set()
   if r.random() < 0.2:
     extras.add('unassigned_geo')
-  exp = gen.gen_experiment(r, g, extras=extras, cost_mode=scenario,
+  exp = gen.gen_experiment(r, g, extras=extras, cost_mode=scenario, cost_scale=cost_scale,
                            n_pre=gen.weighted(r, [(3, 0.5), (4, 0.5), (5, 1), (r.randrange(6, 15), 4), (r.randrange(15, 60), 4)]))
   frame = exp['frame']
   use_cool = r.random() < 0.6
@@ -65,7 +69,7 @@ def run_case(spec):
   counters = collections.Counter()
   violations = []
   desc = {k: exp[k] for k in ('n_pre', 'n_test', 'n_cool', 'n_ctl', 'n_trt', 'shape', 'extras', 'lift', 'int_dtype')}
-  desc.update(scenario=scenario, use_cooldown=use_cool, level=level, tails=tails)
+  desc.update(scenario=scenario, use_cooldown=use_cool, level=level, tails=tails, cost_scale=cost_scale)
 
   def add(clause, mech, detail):
     violations.append({'clause': clause, 'mech': mech, 'detail': '%s; case %r' % (detail, desc)})
@@ -92,6 +96,21 @@ def run_case(spec):
     return {'nontrivial': True, 'fp': util.fp(desc), 'classes': [scenario], 'counters': {}, 'violations': violations, 'sample': None}
   seed = r.randrange(1, 1 << 30)
   s1 = util.call(model.summary, level=level, posterior_threshold=thr_base, tails=tails, nsims=nsims, random_state=seed)
+  mixed = scenario in ('treatment_pre_only', 'control_test_only')
+  if mixed:
+    # one group never spends: the cost regression is degenerate, so only the scenario label is judged
+    counters['mixed_cost_cases'] += 1
+    if s1.ok:
+      got = str(s1.value.iloc[-1]['scenario'])
+      counters['label_checked'] += 1
+      if got != 'variable':
+        add('scenario', 'scenario-label', 'scenario reported %r although %s' % (
+            got, 'the treatment group has non-zero pre-period cost' if scenario == 'treatment_pre_only'
+            else 'the control group has non-zero test-period cost'))
+    else:
+      counters['mixed_cost_summary_raised'] += 1
+    return {'nontrivial': s1.ok, 'fp': util.fp(desc), 'classes': [scenario], 'counters': dict(counters),
+            'violations': violations, 'sample': dict(desc)}
   if not s1.ok:
     add('summary', 'iroas-summary-raises:' + s1.exc_type, s1.describe())
     return {'nontrivial': True, 'fp': util.fp(desc), 'classes': [scenario], 'counters': {}, 'violations': violations, 'sample': None}
